@@ -151,6 +151,23 @@ theorem pmap_lookup_first (hash : κ → Nat) (e : Nat) (kvs : List (κ × γ)) 
   rw [(pmap_refines_map hash e kvs).2 k, spec_lookup_first]
   simp
 
+/-- when the binding of a key is a function of the key (the codec compiled for that type): a lookup
+    depends only on WHETHER the key was ever requested - not on the order of requests, how often they
+    were repeated, which other keys were requested, the initial capacity or the hash function -/
+theorem lookup_depends_on_membership_only (hash : κ → Nat) (e : Nat) (codec : κ → γ) (ks : List κ) (k : κ) :
+    get hash ((ks.map fun x => (x, codec x)).foldl (addAbsent hash) (empty (2 ^ e) : PMap κ γ)) k =
+      if k ∈ ks then some (codec k) else none := by
+  rw [pmap_lookup_first]
+  induction ks with
+  | nil => simp
+  | cons x r ih =>
+    rw [List.map_cons, List.find?_cons]
+    by_cases hx : x = k
+    · subst hx; simp
+    · have hx' : ¬ k = x := fun h => hx h.symm
+      simp only [hx, decide_false, List.mem_cons, hx', false_or]
+      exact ih
+
 /-- the executable check that the driver applies to every table dumped from the REAL `ProgramCache`
     after a racing round (`pcrace`) is sound for the invariant of these theorems -/
 theorem invCheck_sound (hash : κ → Nat) (m : PMap κ γ) (h : invCheck hash m = true) : Inv hash m :=
